@@ -450,7 +450,9 @@ def streams(tier, rng):
     #     straddle 256; special octet patterns in the entity ID
     cases = []
     for n in range(0, 257):
-        for crc, large in (itertools.product((0, 1), (0, 1)) if big or n < 12 else [(rng.randrange(2), rng.randrange(2))]):
+        if not big and 16 < n < 246 and n % 2 and n % 64 not in (63, 1):
+            continue
+        for crc, large in (itertools.product((0, 1), (0, 1)) if big or n < 10 else [(rng.randrange(2), rng.randrange(2))]):
             ids, flags = _rand_conf(rng, crc=crc, large=large)
             fl = [1] + [rng.choice([0x00, 0x80, 0xFF, 0x7F, rng.randrange(256)]) for _ in range(n)]
             a = [ids, flags, [rng.choice([0, 0x80, 0xFF, rng.randrange(256)]) for _ in range(4)], [_rand_size(rng, large), rng.randrange(16)], fl]
